@@ -1,64 +1,203 @@
 (* C16 - a progress bar always shows a truthful, well-formed frame and ends at 100%.
-   pstep p now op = one public call at clock value now (milliseconds); range p = 0 <= step, 0 <= max,
-   max > 0 -> step <= max. *)
+   pstep p now op = Ok (p', es): one public call at clock value now (milliseconds) leaves the bar in state p' and puts the
+   emits es on the stream (Err: the call raises - %estimated% / %remaining% without a maximum, a text the formatter refuses).
+   range p = 0 <= step, 0 <= max, max > 0 -> step <= max.  drawable p = the output is not quiet (and, on a section output,
+   the bar's section exists).  The frame is markup: it is measured by its visible length and reaches the stream through
+   the formatter of the output; on a section output through SectionOutput.clear / write (Model/Section.v). *)
 From Coq Require Import ZArith.
-From Clikit Require Import Base.Prelude Base.Res Base.Term Model.Conv Model.Progress Proofs.ProgressLemmas.
+From Clikit Require Import Base.Prelude Base.Res Base.Term Model.Conv Model.Markup Model.Section Model.Progress
+  Proofs.SectionLemmas Proofs.ProgressLemmas.
 Local Open Scope Z_scope.
 
 (* For EVERY sequence of calls and every timing: the current step stays between 0 and the maximum ... *)
-Theorem step_in_range : forall p now o, range p -> range (fst (pstep p now o)).
+Theorem step_in_range : forall p now o p' es, pstep p now o = Ok (p', es) -> range p -> range p'.
 Proof. exact pstep_range. Qed.
 Print Assumptions step_in_range.
-Theorem new_bar_in_range : forall ansi quiet v mx bw mn md cu msg now, range (pb_new ansi quiet v mx bw mn md cu msg now).
+Theorem new_bar_in_range : forall ansi quiet sec w f st v mx bw mn md xn xd rf pc cu msg now,
+  range (pb_new ansi quiet sec w f st v mx bw mn md xn xd rf pc cu msg now).
 Proof. exact new_range. Qed.
 Print Assumptions new_bar_in_range.
 
-(* ... every frame's bar segment is exactly as wide as configured, and the percentage shown is
-   floor(100 * step / max), between 0 and 100 and equal to 100 exactly at the maximum. *)
-Theorem frame_wf : forall p, range p -> 0 < p_bar_width p -> 0 <= p_write_count p ->
-  length (render_bar p) = Z.to_nat (p_bar_width p).
+(* ... every frame's bar segment is exactly as wide as configured (a progress character of one visible cell: pc is its
+   visible text; the offset of a bar without maximum is the double arithmetic of the code, bit for bit), and the
+   percentage shown is floor(100 * step / max), between 0 and 100 and equal to 100 exactly at the maximum. *)
+Theorem frame_wf : forall p, range p -> 0 < p_bar_width p -> length (render_bar p) = Z.to_nat (p_bar_width p).
 Proof. exact render_bar_width. Qed.
 Print Assumptions frame_wf.
+Theorem frame_wf_any_progress_character : forall p pc, range p -> 0 < p_bar_width p -> length pc = 1%nat ->
+  length (render_bar_with p pc 1) = Z.to_nat (p_bar_width p).
+Proof. exact render_bar_with_width. Qed.
+Print Assumptions frame_wf_any_progress_character.
 Theorem percent_wf : forall p, range p -> 0 < p_max p -> 0 <= p_step p * 100 / p_max p <= 100.
 Proof. exact percent_bounds. Qed.
 Print Assumptions percent_wf.
 Theorem percent_100_at_max : forall p, 0 < p_max p -> p_step p = p_max p -> p_step p * 100 / p_max p = 100.
 Proof. exact percent_at_max. Qed.
 Print Assumptions percent_100_at_max.
+Theorem percent_100_only_at_max : forall p, range p -> 0 < p_max p -> p_step p * 100 / p_max p = 100 -> p_step p = p_max p.
+Proof. exact ProgressLemmas.percent_100_only_at_max. Qed.
+Print Assumptions percent_100_only_at_max.
 
 (* A redraw caused by advancing that does not reach the maximum comes no sooner than the minimum interval
    after the previous write. *)
-Theorem throttle : forall p now k,
-  snd (set_progress p now k) <> [] -> p_step (fst (set_progress p now k)) <> p_max (fst (set_progress p now k)) ->
-  p_min_num p * 1000 <= (now - p_last_write p) * p_min_den p.
+Theorem throttle : forall p now k p' es, set_progress p now k = Ok (p', es) ->
+  es <> [] -> p_step p' <> p_max p' -> p_min_num p * 1000 <= (now - p_last_write p) * p_min_den p.
 Proof. exact throttle_lemma. Qed.
 Print Assumptions throttle.
 
-(* Reaching the maximum and finishing always draw (non-quiet overwriting output); after finish step = max. *)
-Theorem max_reached_draws : forall p now k, p_quiet p = false -> p_ansi p = true ->
-  p_step (fst (set_progress p now k)) = p_max (fst (set_progress p now k)) -> snd (set_progress p now k) <> [].
+(* Reaching the maximum and finishing always draw on an overwriting output (ANSI, plain stream or section) that is not
+   quiet; after finish step = max. *)
+Theorem max_reached_draws : forall p now k p' es, drawable p -> p_ansi p = true -> set_progress p now k = Ok (p', es) ->
+  p_step p' = p_max p' -> es <> [].
 Proof. exact reaching_max_draws. Qed.
 Print Assumptions max_reached_draws.
-Theorem finish_shows_max : forall p now, p_quiet p = false -> p_ansi p = true -> range p ->
-  snd (pstep p now OFinish) <> [] /\ p_step (fst (pstep p now OFinish)) = p_max (fst (pstep p now OFinish)).
+Theorem finish_shows_max : forall p now p' es, drawable p -> p_ansi p = true -> range p -> pstep p now OFinish = Ok (p', es) ->
+  es <> [] /\ p_step p' = p_max p'.
 Proof. exact finish_lemma. Qed.
 Print Assumptions finish_shows_max.
+(* On EVERY output that is not quiet (plain ones included): after finish the step is the maximum and the last frame
+   display() wrote is the frame of that state (step = max) - on a plain output it may be the frame written when the
+   maximum was reached, which is not written a second time. *)
+Theorem finish_last_frame_is_max : forall p now p' es, p_quiet p = false -> range p -> pstep p now OFinish = Ok (p', es) ->
+  p_step p' = p_max p' /\ p_drawn p' = Some (p_max p', p_max p').
+Proof. exact finish_last_frame. Qed.
+Print Assumptions finish_last_frame_is_max.
 
-(* ANSI: one redraw of a single-line frame leaves exactly that frame on the terminal line - no residue of a
-   longer earlier frame (padding to the running maximum length). *)
-Theorem ansi_line_is_latest : forall w p now msg R r c,
-  (1 <= w)%nat -> p_ansi p = true -> p_quiet p = false -> p_flc p = 0%nat -> nolf msg ->
-  (length r <= p_last_len p)%nat -> (length (padded p msg) <= w)%nat ->
-  feed w {| rows := R ++ [r]; cr := length R; cc := c |} (snd (overwrite p now msg))
-    = {| rows := R ++ [padded p msg]; cr := length R; cc := length (padded p msg) |} /\
-  p_last_len (fst (overwrite p now msg)) = length (padded p msg).
-Proof. exact ansi_redraw_lemma. Qed.
-Print Assumptions ansi_line_is_latest.
-
-(* Plain output: only text and line breaks, never a control code. Quiet output: nothing at all. *)
-Theorem plain_own_line : forall p now o, p_ansi p = false -> forallb plain_emit (snd (pstep p now o)) = true.
+(* Plain output: only text and line breaks, never a control code. Quiet output: nothing at all from the bar's calls. *)
+Theorem plain_own_line : forall p now o p' es, p_ansi p = false -> pstep p now o = Ok (p', es) -> forallb plain_emit es = true.
 Proof. exact pstep_plain. Qed.
 Print Assumptions plain_own_line.
-Theorem quiet_silent : forall p now o, p_quiet p = true -> snd (pstep p now o) = [].
+Theorem quiet_silent : forall p now o p' es, p_quiet p = true -> bar_call o -> pstep p now o = Ok (p', es) -> es = [].
 Proof. exact pstep_quiet. Qed.
 Print Assumptions quiet_silent.
+
+(* ================= the FRAMES written (not only the states) ================= *)
+From Clikit Require Import Proofs.ProgressFrameLemmas.
+
+(* draw_state p now o = the state a start / advance / set_progress / display / finish call renders when it draws: the
+   state the call leaves (step, maximum), before the write is recorded.
+   Whenever such a call puts anything on the stream, what it puts there is _overwrite of the frame rendered from
+   draw_state - whose step and maximum are those the call leaves - with the format fixed (with_fmt), at the clock value
+   of the call.  So no frame ever shows a step or maximum other than the current ones. *)
+Theorem frame_written_is_frame_of_post_state : forall p now o p' es q,
+  pstep p now o = Ok (p', es) -> draw_state p now o = Some q -> es <> [] ->
+  p_step q = p_step p' /\ p_max q = p_max p' /\
+  exists fm fr p2, frame_of (with_fmt q) now = Ok (fm, fr) /\
+    overwrite (set_out (with_fmt q) fm (p_secs (with_fmt q))) now fr = Ok (p2, es) /\
+    p' = set_drawn p2 (Some (p_step q, p_max q)).
+Proof. exact frame_of_post_state. Qed.
+Print Assumptions frame_written_is_frame_of_post_state.
+
+(* A rendered frame is the concatenation, placeholder by placeholder, of: the literal text; %current% = the step,
+   right-justified; %max% = the maximum; %percent% = percent_of; %elapsed% = the time since start; %message%; %bar% = a bar
+   segment (frame_wf gives its width); %estimated% / %remaining% only with a maximum. *)
+Theorem frame_pieces_show_state : forall q now, 0 <= p_max q -> forall f fm fm' fr,
+  render_frame q now fm f = Ok (fm', fr) -> exists parts, fr = concat parts /\ Forall2 (shows q now) f parts.
+Proof. exact render_frame_pieces. Qed.
+Print Assumptions frame_pieces_show_state.
+(* ... and the percentage every frame shows is between 0 and 100, is floor(100 * step / max), and is 100 exactly when the
+   step is the maximum. *)
+Theorem percent_shown : forall q, range q ->
+  0 <= percent_of q <= 100 /\ (0 < p_max q -> percent_of q = p_step q * 100 / p_max q) /\
+  (0 < p_max q -> (percent_of q = 100 <-> p_step q = p_max q)).
+Proof. exact percent_of_spec. Qed.
+Print Assumptions percent_shown.
+
+(* ANSI output (not a section, not quiet, a one-line format, frames of good markup that fit the terminal width):
+     ansi_out w sty p     the output is such an output, the formatter's style stack is empty, last length <= w
+     on_line R r t        the cursor of terminal t is in its last row, which holds r; the rows above are R
+     okl sty l            l is one line of good markup and does not end inside a tag (blanks may follow it)
+     padded_to n v        v followed by blanks up to n cells
+   One _overwrite of such a line l: whatever shorter-or-equal text the line held, it now holds exactly the VISIBLE text of
+   l padded to the previous length - no residue of a longer earlier frame - and that length is recorded. *)
+Theorem ansi_line_is_latest : forall w, (1 <= w)%nat -> forall sty q now l p' es R r t,
+  ansi_out w sty q -> on_line R r t -> (length r <= p_last_len q)%nat -> okl sty l -> (length (vis sty l) <= w)%nat ->
+  overwrite q now l = Ok (p', es) ->
+  on_line R (padded_to (p_last_len q) (vis sty l)) (feed w t es) /\
+  exists f', fmt_ok sty f' /\ p' = set_written (set_out q f' (p_secs q)) (length (padded_to (p_last_len q) (vis sty l))) now.
+Proof. exact ansi_overwrite. Qed.
+Print Assumptions ansi_line_is_latest.
+(* One call (step_fits: the frame it would draw is such a line): the premises are re-established, and if the call wrote
+   anything the line holds exactly the frame of the state the call leaves (shown_by: its visible text, padded; blanks
+   after clear); if it wrote nothing the line is as before. *)
+Theorem ansi_line_after_a_call : forall w, (1 <= w)%nat -> forall sty p now o p' es R r t,
+  ansi_out w sty p -> on_line R r t -> (length r <= p_last_len p)%nat -> step_fits w sty p now o -> pstep p now o = Ok (p', es) ->
+  ansi_out w sty p' /\ on_line R (match es with [] => r | _ => shown_by sty p now o end) (feed w t es) /\
+  (length (match es with [] => r | _ => shown_by sty p now o end) <= p_last_len p')%nat.
+Proof. exact ansi_step. Qed.
+Print Assumptions ansi_line_after_a_call.
+(* EVERY history with EVERY timing (run_fits: each frame drawn on the way is such a line; run_fitsb is the same as a check
+   that can be run): the rows above stay, the line shows the frame of the latest call that wrote (run_shown), nothing else. *)
+Theorem ansi_line_over_histories : forall w, (1 <= w)%nat -> forall sty ops p now R r t trace pf,
+  ansi_out w sty p -> on_line R r t -> (length r <= p_last_len p)%nat -> run_fits w sty p now ops ->
+  prun p now ops = Ok (trace, pf) ->
+  ansi_out w sty pf /\ on_line R (run_shown sty p now ops r) (feed w t (flat_map snd trace)) /\
+  (length (run_shown sty p now ops r) <= p_last_len pf)%nat.
+Proof. exact ansi_run. Qed.
+Print Assumptions ansi_line_over_histories.
+Theorem run_fits_can_be_run : forall w sty ops p now, run_fitsb w sty p now ops = true -> run_fits w sty p now ops.
+Proof. exact run_fitsb_ok. Qed.
+Print Assumptions run_fits_can_be_run.
+
+(* Section output (sec_out: decorated, not quiet, the bar's section is the first of the output's sections, the screen t is
+   the stack of all sections - SectionLemmas.Inv, the invariant of C15 - and every row count is right).
+   One call of the bar, or one write_line to a section below (good markup): the screen is again the stack of the sections -
+   the bar's frame replaces the rows of its own section only - and a call of the BAR leaves every section below exactly
+   as it was (content and row count). *)
+Theorem section_below_intact : forall w, (1 <= w)%nat -> forall sty p now o p' es t,
+  sec_out w sty p t -> sec_step_ok sty p now o -> good_pop sty o = true -> pstep p now o = Ok (p', es) ->
+  sec_out w sty p' (feed w t es) /\ (bar_call o -> skipn 1 (p_secs p') = skipn 1 (p_secs p)).
+Proof. exact sec_step. Qed.
+Print Assumptions section_below_intact.
+Theorem section_below_intact_over_histories : forall w, (1 <= w)%nat -> forall sty ops p now t trace pf,
+  sec_out w sty p t -> sec_run_ok sty p now ops -> forallb (good_pop sty) (map snd ops) = true ->
+  prun p now ops = Ok (trace, pf) ->
+  sec_out w sty pf (feed w t (flat_map snd trace)) /\
+  (Forall bar_call (map snd ops) -> skipn 1 (p_secs pf) = skipn 1 (p_secs p)).
+Proof. exact sec_run. Qed.
+Print Assumptions section_below_intact_over_histories.
+Theorem sec_run_ok_can_be_run : forall sty ops p now, sec_run_okb sty p now ops = true -> sec_run_ok sty p now ops.
+Proof. exact sec_run_okb_ok. Qed.
+Print Assumptions sec_run_ok_can_be_run.
+
+(* ---- instances: the premises are inhabited by non-trivial histories ---- *)
+Definition demo_f : formatter :=
+  match new_formatter (FAnsi true) [] with Ok f => f | Err _ => {| f_kind := FAnsi true; f_styles := []; f_stack := [] |} end.
+Definition m_long : str := [60;105;110;102;111;62;108;111;110;103;101;114;60;47;105;110;102;111;62;32;109;115;103]%N.  (* <info>longer</info> msg *)
+Definition m_short : str := [60;105;110;102;111;62;120;60;47;105;110;102;111;62]%N.                                    (* <info>x</info> *)
+Definition f_msg : format := [PLit [32]%N; PCurrent; PLit [47]%N; PMax; PLit [32;91]%N; PBar; PLit [93;32]%N; PPercent (SRight 3);
+                              PLit [37;32]%N; PMessage].
+Definition demo_ops : list (Z * pop) :=
+  [(0, OStart None); (200, OAdvance 1); (0, OMessage m_short); (200, OAdvance 3); (10, OAdvance 1); (200, OClear); (0, ODisplay); (50, OFinish)].
+(* ANSI, width 60, a format with %message%: a long tagged message, then a short one - the line is the latest frame *)
+Definition demo_ansi : pbar :=
+  pb_new true false false 60 demo_f [] 0 10 10 1 10 1 1 None [60;105;110;102;111;62;62;60;47;105;110;102;111;62]%N (Some f_msg) (Some m_long) 1000.
+Example c16_ansi_premises : run_fitsb 60 (f_styles demo_f) demo_ansi 1000 demo_ops = true /\
+  p_ansi demo_ansi = true /\ p_quiet demo_ansi = false /\ p_section demo_ansi = false /\ p_flc demo_ansi = 0%nat /\
+  good_lineb (f_styles demo_f) (p_pchar demo_ansi) = true /\ f_stack (p_f demo_ansi) = [].
+Proof. vm_compute. repeat split. Qed.
+Example c16_ansi_line :
+  match prun demo_ansi 1000 demo_ops with
+  | Ok (trace, pf) => rows (feed 60 term_init (flat_map snd trace)) = [run_shown (f_styles demo_f) demo_ansi 1000 demo_ops []]
+                      /\ p_step pf = 10 /\ p_max pf = 10
+  | Err _ => False
+  end.
+Proof. vm_compute. repeat split. Qed.
+(* a section output at width 30 with a section below: the frame wraps inside its own section, the section below stays *)
+Definition demo_sec_setup := srun true 30 [] demo_f [SCreate; SCreate; SWrite 1 [98;101;108;111;119]%N true].
+Definition demo_sec : pbar :=
+  match demo_sec_setup with
+  | Ok (st, f, _) => pb_new true false true 30 f st 0 10 10 0 1 1 1 (Some 2) [62]%N (Some f_msg) (Some m_long) 1000
+  | Err _ => demo_ansi
+  end.
+Example c16_section_premises : sec_run_okb (f_styles demo_f) demo_sec 1000 (demo_ops ++ [(0, OBelow m_short); (0, OAdvance (-3))]) = true /\
+  forallb (good_pop (f_styles demo_f)) (map snd (demo_ops ++ [(0, OBelow m_short); (0, OAdvance (-3))])) = true.
+Proof. vm_compute. split; reflexivity. Qed.
+Example c16_section_below :
+  match demo_sec_setup, prun demo_sec 1000 (demo_ops ++ [(0, OBelow m_short); (0, OAdvance (-3))]) with
+  | Ok (_, _, es0), Ok (trace, pf) =>
+    map sc_content (skipn 1 (p_secs pf)) = [[[98;101;108;111;119]%N; m_short]] /\
+    firstn 3 (rev (rows (feed 30 term_init (es0 ++ flat_map snd trace)))) = [[]; [120]%N; [98;101;108;111;119]%N]
+  | _, _ => False
+  end.
+Proof. vm_compute. repeat split. Qed.
